@@ -173,9 +173,13 @@ func c16SlotsBody(tape *simrt.Tape, o simwork.Opts, res *simwork.Result) {
 					n++
 				}
 			}
-			if n != 1 {
-				res.Invalid = append(res.Invalid, fmt.Sprintf("operation %s has %d lock acquisitions: linearization point not identifiable", op.Kind, n))
+			if n == 0 {
+				res.Invalid = append(res.Invalid, fmt.Sprintf("operation %s has no lock acquisition: linearization point not identifiable", op.Kind))
 				return
+			}
+			if n > 1 {
+				// the first critical section is the operation's observation of the slot
+				res.Probes["operation-with-several-critical-sections"]++
 			}
 			all = append(all, op)
 		}
